@@ -303,6 +303,44 @@ class PlainToAug(ast.NodeTransformer):
         return n
 
 
+class Kwify(ast.NodeTransformer):
+    """positional -> keyword arguments for the calls whose signatures the library fixes: x.subscribe(a, b, c) ->
+    x.subscribe(on_next=a, on_error=b, on_completed=c); s.schedule(a, st) -> s.schedule(a, state=st); likewise
+    schedule_relative / schedule_absolute / schedule_periodic (3rd positional -> state=)"""
+    SIG = {"subscribe": ["on_next", "on_error", "on_completed"], "schedule": [None, "state"],
+           "schedule_relative": [None, None, "state"], "schedule_absolute": [None, None, "state"], "schedule_periodic": [None, None, "state"]}
+
+    def visit_Call(self, n):
+        self.generic_visit(n)
+        if isinstance(n.func, ast.Attribute) and n.func.attr in self.SIG and not any(isinstance(a, ast.Starred) for a in n.args) \
+                and not any(k.arg is None for k in n.keywords):
+            sig = self.SIG[n.func.attr]
+            if len(n.args) <= len(sig):
+                keep, kws = [], []
+                for a, nm in zip(n.args, sig):
+                    if nm is None:
+                        keep.append(a)
+                    else:
+                        kws.append(ast.keyword(arg=nm, value=a))
+                if n.func.attr == "subscribe" and len(n.args) == 1:
+                    return n        # subscribe(observer): leave the observer form alone
+                n.args = keep
+                n.keywords = kws + n.keywords
+        return n
+
+
+class Positionalise(ast.NodeTransformer):
+    """keyword -> positional where the keyword is the next positional parameter: schedule(a, state=s) -> schedule(a, s)"""
+    def visit_Call(self, n):
+        self.generic_visit(n)
+        if isinstance(n.func, ast.Attribute) and n.func.attr in ("schedule", "schedule_relative", "schedule_absolute", "schedule_periodic"):
+            want = 1 if n.func.attr == "schedule" else 2
+            if len(n.args) == want and len(n.keywords) == 1 and n.keywords[0].arg == "state":
+                n.args = n.args + [n.keywords[0].value]
+                n.keywords = []
+        return n
+
+
 class AddDocstrings(ast.NodeTransformer):
     """every function without a docstring gets one (maintainers document code; rules must not count a docstring as a statement)"""
     def visit_FunctionDef(self, n):
@@ -373,6 +411,10 @@ def transform(root, kind):
                 tree = AugToPlain().visit(tree)
             elif kind == "plain2aug":
                 tree = PlainToAug().visit(tree)
+            elif kind == "kwify":
+                tree = Kwify().visit(tree)
+            elif kind == "positionalise":
+                tree = Positionalise().visit(tree)
             elif kind == "docstring":
                 tree = AddDocstrings().visit(tree)
             elif kind == "annotate":
@@ -410,7 +452,7 @@ def transform(root, kind):
 def main():
     kinds = [a for a in sys.argv[1:] if not a.startswith("--")] or ["all"]
     if kinds == ["all"]:
-        kinds = ["unparse", "flipcmp", "invertif", "rename", "rename2", "rename3", "extractcond", "cellify", "earlyreturn", "attrrename", "docstring", "annotate", "ternary2if", "if2ternary", "aug2plain", "plain2aug"]
+        kinds = ["unparse", "flipcmp", "invertif", "rename", "rename2", "rename3", "extractcond", "cellify", "earlyreturn", "attrrename", "docstring", "annotate", "ternary2if", "if2ternary", "aug2plain", "plain2aug", "kwify", "positionalise"]
     bad = 0
     for kind in kinds:
         tmp = tempfile.mkdtemp(prefix="rxsa_rf_")
